@@ -186,3 +186,84 @@ def first_diff_step(w: S.SWorld, model: list[int]):
             return si, outs[pos:pos + ln], model[pos:pos + ln + 8]
         pos += ln
     return len(w.step_lens), [], model[pos:pos + 40]
+
+
+# ------------------------------------------------------------------------------------------------------------
+# exhaustive small scope: every sequence over a reduced op alphabet up to a depth, each replayed from scratch
+# ------------------------------------------------------------------------------------------------------------
+
+ALPHABETS = {
+    # scope-centred: one or two tasks, nested scopes, shields, cancels, checkpoints, all scheduler choices
+    "scopes": dict(newscope=1, enter=1, exit=1, cancel=1, setshield=1, yield_=1, ckif=1, shieldck=1, sleep=1, run=1,
+                   extcancel=1, tick=1, failat=0, exit_misuse=0, setdeadline=0, gnew=0, genter=0, gexit=0, spawn=0,
+                   start=0, spawn_misuse=0, started=0, started_misuse=0, hcancel=0, hwait=0, sleep_forever=0, hold=0,
+                   drop=1, wrap=0, finish=0, finish_root=0, uncancel=0, effdl=0, nativecancel=0, newroot=0,
+                   deadline_prob=0.0, shield_prob=0.0, max_depth=2, max_groups=0, max_tasks=2),
+    # group-centred: spawn/start/finish/errors/exit with all scheduler choices
+    "groups": dict(newscope=0, enter=0, exit=0, cancel=1, setshield=0, yield_=1, ckif=0, shieldck=0, sleep=0, run=1,
+                   extcancel=0, tick=0, failat=0, exit_misuse=0, setdeadline=0, gnew=1, genter=1, gexit=1, spawn=1,
+                   start=1, spawn_misuse=0, started=1, started_misuse=0, hcancel=1, hwait=0, sleep_forever=1, hold=1,
+                   drop=0, wrap=0, finish=1, finish_root=0, uncancel=0, effdl=0, nativecancel=0, newroot=1,
+                   deadline_prob=0.0, shield_prob=0.0, max_depth=1, max_groups=1, max_tasks=4),
+    # deadline-centred
+    "deadlines": dict(newscope=1, enter=1, exit=1, cancel=0, setshield=0, yield_=0, ckif=0, shieldck=0, sleep=1, run=1,
+                      extcancel=0, tick=1, failat=1, exit_misuse=0, setdeadline=1, gnew=0, genter=0, gexit=0, spawn=0,
+                      start=0, spawn_misuse=0, started=0, started_misuse=0, hcancel=0, hwait=0, sleep_forever=0, hold=0,
+                      drop=1, wrap=0, finish=0, finish_root=0, uncancel=0, effdl=1, nativecancel=0, newroot=0,
+                      deadline_prob=1.0, shield_prob=0.0, max_depth=2, max_groups=0, max_tasks=1),
+}
+
+
+def canonical_candidates(w: S.SWorld, prof: Profile):
+    """Deterministic, de-duplicated candidate ops for the exhaustive walk (one representative per op kind/target)."""
+    rng = random.Random(0)
+    seen = {}
+    for _ in range(4):          # sample the parameterised proposals a few times to see their variants
+        for (wt, op) in propose(w, rng, prof):
+            c, a, b, d = op
+            # canonicalise free parameters
+            if c == S.NEWSCOPE:
+                op = (c, a, -1 if prof.w["deadline_prob"] == 0 else int(w.loop.time()) + 2, 0)
+            elif c == S.FAILAT:
+                op = (c, a, int(w.loop.time()) + 2, 0)
+            elif c == S.SLEEP:
+                op = (c, a, 1 if b >= 0 else -1, 0)
+            elif c in (S.HOLD, S.WRAP):
+                op = (c, a, 7, 0)
+            elif c == S.STARTED:
+                op = (c, a, 4, 0)
+            elif c == S.FINISH:
+                op = (c, a, 3, 0)
+            elif c == S.SETDEADLINE:
+                op = (c, a, b, int(w.loop.time()) + 1)
+            elif c == S.TICK:
+                op = (c, max(a, 1), 0, 0)
+            seen[op] = True
+    return sorted(seen)
+
+
+def exhaustive_small(alphabet: str, depth: int, limit: int = 20000):
+    """All op sequences of the reduced alphabet up to `depth` (after the initial NewRoot), each replayed on the
+    implementation from scratch.  Returns the list of completed worlds (leaf sequences only) and whether the limit cut
+    the enumeration short."""
+    prof = Profile(**ALPHABETS[alphabet])
+    leaves = []
+    truncated = False
+    stack = [[S.NEWROOT, 0, 0, 0]]
+    while stack:
+        prefix = stack.pop()
+        w = S.SWorld()
+        with w:
+            for i in range(0, len(prefix), 4):
+                w.do(*prefix[i:i + 4])
+            n = len(prefix) // 4 - 1
+            cands = canonical_candidates(w, prof) if n < depth else []
+        if not cands:
+            leaves.append(w)
+            if len(leaves) >= limit:
+                truncated = bool(stack)
+                break
+            continue
+        for op in cands:
+            stack.append(prefix + list(op))
+    return leaves, truncated
